@@ -11,6 +11,8 @@ Tier-A extractor for C12 (purity): regenerates *data* from /repo's current AST.
                `self._apply_on_within_year_window(...)`, `self._apply_on_window(...)`, `self._apply_debiasing_steps(...)`):
                (file, function, callee, parameter, normalised argument text, syntactic shape) — whether the window
                function receives the caller's array itself (a name), an indexed copy `x[idx]`, or a basic slice (a view)
+  rngSites     every call that draws from / re-seeds a random generator: `np.random.<f>(...)`, `numpy.random...`, `random.<f>(...)`,
+               `<x>.rvs(...)`, `default_rng` / `RandomState` / `Generator` constructions (file, function, callee text, occurrence)
   globalState  every `global` / `nonlocal` statement, every decorator whose name contains "cache", every assignment
                to an attribute of `cls` / of a class name (state that survives a call outside the instance)
 
@@ -73,7 +75,7 @@ class Scan(ast.NodeVisitor):
         self.scope = []
         self.cls = []
         self.class_names = class_names
-        self.sites, self.selfs, self.globs, self.callargs = [], [], [], []
+        self.sites, self.selfs, self.globs, self.callargs, self.rngs = [], [], [], [], []
 
     # ---- scopes
     def fn(self):
@@ -206,8 +208,24 @@ class Scan(ast.NodeVisitor):
                 shape = "other"
             self.callargs.append((self.file, self.fn(), f.attr, pname, ast.unparse(a), shape))
 
+    def rng_site(self, node):
+        ftxt = ast.unparse(node.func)
+        parts = ftxt.split(".")
+        hit = False
+        if len(parts) >= 3 and parts[0] in ("np", "numpy") and parts[1] == "random":
+            hit = True
+        elif len(parts) >= 2 and parts[0] == "random":
+            hit = True
+        elif parts[-1] in ("rvs", "default_rng", "RandomState", "Generator", "SeedSequence", "permutation", "shuffle", "choice") and parts[0] not in ("self",):
+            hit = True
+        elif parts[-1] == "rvs":
+            hit = True
+        if hit:
+            self.rngs.append((self.file, self.fn(), ftxt))
+
     def visit_Call(self, node):
         self.call_args(node)
+        self.rng_site(node)
         f = node.func
         ftxt = ast.unparse(f)
         txt = ast.unparse(node)
@@ -247,7 +265,7 @@ def scan(repo):
         for n in ast.walk(trees[f]):
             if isinstance(n, ast.ClassDef):
                 class_names.add(n.name)
-    sites, selfs, globs, callargs = [], [], [], []
+    sites, selfs, globs, callargs, rngs = [], [], [], [], []
     for f in files:
         sc = Scan(f, class_names)
         sc.visit(trees[f])
@@ -255,7 +273,8 @@ def scan(repo):
         selfs += sc.selfs
         globs += sc.globs
         callargs += sc.callargs
-    return files, sites, selfs, globs, callargs
+        rngs += sc.rngs
+    return files, sites, selfs, globs, callargs, rngs
 
 
 def numbered(sites):
@@ -277,10 +296,10 @@ def generate(repo):
     errors = []
     out = ["", "import IbicusModel.Model.Purity", "", "namespace Gen.WriteSites", "open Model.Purity", ""]
     try:
-        files, sites, selfs, globs, callargs = scan(repo)
+        files, sites, selfs, globs, callargs, rngs = scan(repo)
     except (OSError, SyntaxError, ValueError) as ex:
         errors.append(f"untranslatable:writesites: {type(ex).__name__} {ex}")
-        files, sites, selfs, globs, callargs = [], [], [], [], []
+        files, sites, selfs, globs, callargs, rngs = [], [], [], [], [], []
     out.append("/-- the anchored files that were scanned -/")
     out.append("def files : List String := [" + ", ".join(lstr(f) for f in files) + "]")
     out.append("")
@@ -304,6 +323,14 @@ def generate(repo):
     out.append("/-- the arguments handed to the per-window functions (file, function, callee, parameter, argument text, shape) -/")
     out.append("def callArgs : List CallArg := [")
     rows = [f"  ⟨{lstr(file)}, {lstr(fn)}, {lstr(callee)}, {lstr(par)}, {lstr(txt)}, .{shape}⟩" for (file, fn, callee, par, txt, shape) in callargs]
+    out.append(_join_rows(rows) + "\n]")
+    out.append("")
+    out.append("/-- every call site that draws from a random generator (file, function, callee, occurrence) -/")
+    out.append("def rngSites : List RngSite := [")
+    seen, rows = {}, []
+    for (file, fn, callee) in rngs:
+        seen[(file, fn, callee)] = seen.get((file, fn, callee), 0) + 1
+        rows.append(f"  ⟨{lstr(file)}, {lstr(fn)}, {lstr(callee)}, {seen[(file, fn, callee)]}⟩")
     out.append(_join_rows(rows) + "\n]")
     out.append("")
     out.append("end Gen.WriteSites")
